@@ -477,6 +477,7 @@ func propSim(c SimCase) pbt.Outcome {
 			{"periodic-set-ignored", semantics{NoPeriodicSet: true}},
 			{"event-get-ignored", semantics{NoEventGet: true}},
 			{"onexit-not-fired-at-budget-end", semantics{NoExitAtEnd: true}},
+			{"periodic-set-steals-valid", semantics{NoPeriodicSet: true, StealsValid: true}},
 		} {
 			if compareRuns(got, predict(c.M, bm, active, c.Ticks, c.StopOn, alt.sem), false) == "" {
 				sig = alt.sig
